@@ -12,6 +12,7 @@ import Proofs.Indep
 import Proofs.SrcBlind
 import Proofs.Restrict
 import Proofs.SeedTable
+import Proofs.SeedingGlue
 namespace Coma.Props
 open Coma Coma.Spec
 
@@ -118,5 +119,10 @@ theorem C10_seed_lookup (c : SecCfg) (refs qs : List OMap) (pt : PTable) (d : De
         | .ok r    => r.1.2
         | .error _ => [] :=
   Coma.Proofs.deriveTable_lookup c refs qs pt d k h
+
+/-- the whole derived seed table is the same for every order of the query molecules (distinct ids) -/
+theorem C10_seed_table_query_perm (c : SecCfg) (refs qs qs' : List OMap) (pt : PTable) (hp : qs.Perm qs') (hn : (qs.map (·.id)).Nodup) :
+    deriveTable c refs qs' pt = deriveTable c refs qs pt :=
+  Coma.Proofs.deriveTable_perm c refs qs qs' pt hp hn
 
 end Coma.Props
